@@ -114,6 +114,7 @@ def explore(
     """
 
     def _init() -> None:
+        H.quiet_logging()
         H.freeze(day)
         if init:
             init()
